@@ -37,6 +37,8 @@ def run(ctx):
     r134(ctx, m)
     r135(ctx)
     r138(ctx)
+    from . import c08 as _c08b
+    _c08b.r87(ctx, ctx.repo['util'], 'R13.12')   # a filter constant and a directory text are typed by the same table
     from . import c04 as _c04
     _c04.r41(ctx, ctx.repo['writer'])
     from . import findings2 as _f2
